@@ -30,7 +30,11 @@ def main():
     ctx = Ctx(pid, a.tier, seed)
     if a.replay:
         rec = json.load(open(a.replay))
-        mod.replay(ctx, rec['case'])
+        if 'func' in rec['case'] and ('crash_item' in rec['case'] or 'hang_item' in rec['case']):
+            from .core import replay_item
+            replay_item(ctx, rec['case'])
+        else:
+            mod.replay(ctx, rec['case'])
         for k, v in ctx.violations.items():
             print('REPLAY reproduces class=%s: %s' % (k, v['msg']))
         if not ctx.violations:
